@@ -260,6 +260,9 @@ def _wfn_types():
          (3, 0, 0), (0, 3, 0), (0, 0, 3), (2, 1, 0), (2, 0, 1), (0, 2, 1), (1, 2, 0), (1, 0, 2), (0, 1, 2), (1, 1, 1),
          (4, 0, 0), (0, 4, 0), (0, 0, 4), (3, 1, 0), (3, 0, 1), (1, 3, 0), (0, 3, 1), (1, 0, 3), (0, 1, 3), (2, 2, 0), (2, 0, 2), (0, 2, 2),
          (2, 1, 1), (1, 2, 1), (1, 1, 2)]
+    # h functions (types 36-56) in the order of the AIM programs: z^5, yz^4, y^2z^3, ..., x^5
+    t += [(0, 0, 5), (0, 1, 4), (0, 2, 3), (0, 3, 2), (0, 4, 1), (0, 5, 0), (1, 0, 4), (1, 1, 3), (1, 2, 2), (1, 3, 1), (1, 4, 0),
+          (2, 0, 3), (2, 1, 2), (2, 2, 1), (2, 3, 0), (3, 0, 2), (3, 1, 1), (3, 2, 0), (4, 0, 1), (4, 1, 0), (5, 0, 0)]
     return t
 
 
@@ -328,6 +331,111 @@ def independent_wfx(text):
             v += c * rel[:, 0] ** nx * rel[:, 1] ** ny * rel[:, 2] ** nz * np.exp(-a * (rel * rel).sum(axis=1))
         vals.append((occ, en, v))
     return vals
+
+
+def fchk_fields(text):
+    """Formatted checkpoint file: label in columns 1-40, type letter in column 44, 'N=' and a count for arrays (values on the
+    following lines, whitespace separated except for the 12-character string words), else the scalar in columns 50-."""
+    out = {}
+    lines = text.splitlines()
+    i = 2
+    while i < len(lines):
+        ln = lines[i]
+        label, typ = ln[:40].strip(), ln[43:44]
+        i += 1
+        if typ not in "IRCLH" or not label:
+            continue
+        if ln[47:49] == "N=":
+            n = int(ln[49:].split()[0])
+            vals = []
+            while len(vals) < n and i < len(lines):
+                vals += lines[i].split()
+                i += 1
+            out[label] = [int(v) for v in vals[:n]] if typ == "I" else ([float(v) for v in vals[:n]] if typ == "R" else vals[:n])
+        else:
+            w = ln[49:].split()
+            out[label] = (int(w[0]) if typ == "I" else float(w[0]) if typ == "R" else " ".join(w)) if w else None
+    return out
+
+
+# Gaussian's order of the functions of a shell (Cartesian d, f: its own lists; g and higher: x last varying slowest from z^l)
+def _gauss_cart(l):
+    if l == 0:
+        return ["1"]
+    if l == 1:
+        return ["x", "y", "z"]
+    if l == 2:
+        return ["xx", "yy", "zz", "xy", "xz", "yz"]
+    if l == 3:
+        return ["xxx", "yyy", "zzz", "xyy", "xxy", "xxz", "xzz", "yzz", "yyz", "xyz"]
+    return ["x" * a + "y" * b + "z" * (l - a - b) for a in range(l + 1) for b in range(l - a + 1)]
+
+
+def _gauss_pure(l):
+    out = ["c0"]
+    for m in range(1, l + 1):
+        out += [f"c{m}", f"s{m}"]
+    return out
+
+
+def independent_fchk(text):
+    """Orbitals of a formatted checkpoint file as functions of space: [(spin, energy, values at the probe points)], electrons (na, nb)."""
+    from iodata.basis import MolecularBasis, Shell
+    f = fchk_fields(text)
+    xyz = np.array(f["Current cartesian coordinates"]).reshape(-1, 3)
+    types, nprims, s2a = f["Shell types"], f["Number of primitives per shell"], f["Shell to atom map"]
+    expo, con = f["Primitive exponents"], f["Contraction coefficients"]
+    pcon = f.get("P(S=P) Contraction coefficients")
+    shells, conv = [], {}
+    off = 0
+    for t, npr, at in zip(types, nprims, s2a):
+        e = expo[off:off + npr]
+        c = con[off:off + npr]
+        if t == -1:
+            shells.append(Shell(at - 1, [0, 1], ["c", "c"], e, np.array([c, pcon[off:off + npr]]).T))
+        else:
+            l, kind = abs(t), ("p" if t < -1 else "c")
+            shells.append(Shell(at - 1, [l], [kind], e, np.array([c]).T))
+            conv[(l, kind)] = _gauss_pure(l) if kind == "p" else _gauss_cart(l)
+        off += npr
+    conv.setdefault((0, "c"), ["1"])
+    conv.setdefault((1, "c"), ["x", "y", "z"])
+    ob = MolecularBasis(shells, conv, "L2")
+    B = basis_values(ob, xyz, PROBE)
+    nb = B.shape[0]
+    out = []
+    for spin, key_e, key_c in (("a", "Alpha Orbital Energies", "Alpha MO coefficients"), ("b", "Beta Orbital Energies", "Beta MO coefficients")):
+        if key_c not in f:
+            continue
+        C = np.array(f[key_c]).reshape(-1, nb)          # one orbital after the other
+        for j, row in enumerate(C):
+            out.append((spin, f[key_e][j], row @ B))
+    return out, (f["Number of alpha electrons"], f["Number of beta electrons"]), ob, xyz
+
+
+def independent_check_fchk(src, text):
+    """Every source orbital is in the file; with aufbau occupations implied by the electron counts."""
+    try:
+        vals, (na, nbeta), _ob, _xyz = independent_fchk(text)
+    except Exception:  # noqa: BLE001
+        return False
+    restricted = not any(sp == "b" for sp, _e, _v in vals)
+    s_ch, _ = channels(src, "fchk")
+    S = spin_orbitals(s_ch)
+    nalpha_orbs = sum(1 for sp, _e, _v in vals if sp == "a")
+    for spin, occ, en, v, sc in S:
+        # position of the matching orbital in the file (alpha list is shared by both spins in a restricted file)
+        want_spin = "a" if restricted else spin
+        idx = [j for j, (sp, _e, v2) in enumerate(vals) if sp == want_spin and np.all(np.abs(v2 - v) <= sc)]
+        if not idx:
+            return False
+        j = idx[0] if want_spin == "a" else idx[0] - nalpha_orbs
+        nocc = na if spin == "a" else nbeta
+        # aufbau: occupied iff among the first n orbitals (degenerate duplicates of the same function are all acceptable)
+        pos = [(k if want_spin == "a" else k - nalpha_orbs) for k in idx]
+        if (occ > 0.5) != any(q < nocc for q in pos) and (occ > 0.5) != all(q < nocc for q in pos):
+            return False
+    return True
 
 
 def independent_check(src, text, fmt):
@@ -403,6 +511,8 @@ def run_config(task):
         ev.update(compare(src, back, fmt))
         if fmt in ("wfn", "wfx"):
             ev["independent_same"] = ev["independent_same"] and independent_check(src, open(path).read(), fmt)
+        elif fmt == "fchk":
+            ev["independent_same"] = ev["independent_same"] and independent_check_fchk(src, open(path).read())
         return ev
     except Exception as exc:  # noqa: BLE001 - a failure of the harness itself must not look like a verdict
         ev["out"] = "harness:" + type(exc).__name__
@@ -410,6 +520,56 @@ def run_config(task):
         return ev
     finally:
         shutil.rmtree(tmp, ignore_errors=True)
+
+
+def foreign_load(task):
+    """A WFN / WFX file written by another program: the loaded orbitals are the functions the file's primitive expansion denotes."""
+    path, fmt = task
+    from iodata import api
+    ev = {"op": "ForeignLoad", "file": os.path.basename(path), "fmt": fmt, "readable": True, "count_same": True, "orbitals_same": True,
+          "occs_same": True, "energies_same": True, "msg": ""}
+    global PROBE
+    PROBE = PROBE0
+    try:
+        text = open(path).read()
+        if fmt == "fchk":
+            orbs, (na, nbeta), _ob, _xyz = independent_fchk(text)
+            al = [o for o in orbs if o[0] == "a"]
+            be = [o for o in orbs if o[0] == "b"]
+            if be:
+                vals = [(float(j < na), en, v) for j, (_s, en, v) in enumerate(al)] + [(float(j < nbeta), en, v) for j, (_s, en, v) in enumerate(be)]
+            else:
+                vals = [(float(j < na) + float(j < nbeta), en, v) for j, (_s, en, v) in enumerate(al)]
+        else:
+            vals = independent_wfn(text) if fmt == "wfn" else independent_wfx(text)
+        with warnings.catch_warnings():
+            warnings.simplefilter("ignore")
+            try:
+                obj = api.load_one(path, fmt=fmt)
+            except Exception as exc:  # noqa: BLE001
+                ev["readable"] = False
+                ev["msg"] = f"{type(exc).__name__}: {str(exc)[:100]}"
+                return ev
+        chs, _ = channels(obj, fmt)
+        ev["count_same"] = len(chs) == len(vals)
+        used = set()
+        for occ, en, v in vals:
+            cands = [k for k, c in enumerate(chs) if k not in used and np.all(np.abs(c[3] - v) <= c[4] + 1e-10 * np.abs(v))]
+            if not cands:
+                ev["orbitals_same"] = False
+                continue
+            best = [k for k in cands if abs(chs[k][1] - occ) <= 1e-6 and abs(chs[k][2] - en) <= 1e-6 * max(1.0, abs(en))]
+            k = (best or cands)[0]
+            used.add(k)
+            if abs(chs[k][1] - occ) > 1e-6:
+                ev["occs_same"] = False
+            if abs(chs[k][2] - en) > 1e-6 * max(1.0, abs(en)):
+                ev["energies_same"] = False
+        return ev
+    except Exception as exc:  # noqa: BLE001
+        ev["readable"] = False
+        ev["msg"] = "harness:" + type(exc).__name__ + ":" + str(exc)[:150]
+        return ev
 
 
 def shell_sets(fmt, rng, n):
@@ -518,10 +678,24 @@ def check(run: Run):
     run.add_model(st)
     tasks = plan(run, rng)
     events = pmap(run_config, tasks, chunksize=2)
+    from ..corpus import corpus
+    # (h2o_error.wfx is a deliberately damaged file of the test suite)
+    foreign = [(p, f) for p, f, _ in corpus() if f in ("wfn", "wfx", "fchk") and "error" not in os.path.basename(p)
+               and (run.thorough() or os.path.getsize(p) < 400000)]
+    fevents = pmap(foreign_load, foreign, chunksize=1)
+    events = events + fevents
+    run.notes["foreign_files_loaded"] = len(fevents)
     reached = validate_traces(run, "Trace_Wavefunction", [[e] for e in events], chunk=3000)
     outs = {}
     for e, r in zip(events, reached):
         run.count()
+        if e["op"] == "ForeignLoad":
+            run.distinct("foreign:" + e["file"])
+            if r != 1:
+                flags = [k for k in ("readable", "count_same", "orbitals_same", "occs_same", "energies_same") if not e[k]]
+                run.violation(f"{e['fmt']} file of another program loads differently from its primitive expansion: {','.join(flags)} ({e['file']})",
+                              json.dumps(e), {"event": e})
+            continue
         outs[e["out"]] = outs.get(e["out"], 0) + 1
         if e["out"] == "written" and e["readable"]:
             run.distinct(json.dumps(e["cfg"], sort_keys=True))
@@ -535,7 +709,9 @@ def check(run: Run):
         "orbital values at 12 probe points are compared with a tolerance of 2e-6 times the sum of |coefficient x basis value|",
         "virtual orbitals are compared only for formats that store them (FCHK, Molden, Molekel); spin labels of WFN files are "
         "compared only when an occupation exceeds 1 or the loaded kind equals the source kind",
-        "independent readers exist for WFN and WFX (primitive expansions); FCHK / Molden / Molekel are projected through load_one only",
+        "independent readers exist for WFN, WFX (primitive expansions) and FCHK (Gaussian's shell types and function order, aufbau "
+        "occupations from the electron counts); Molden / Molekel are projected through load_one only (their independent writers are in C05)",
+        "corpus WFN / WFX / FCHK files written by other programs are loaded and compared with their independent reading",
     ]
 
 
